@@ -2,6 +2,7 @@
 From JV Require Import Sem Gen Spec SpecX.
 From JV.Proofs Require Import SpecFacts Cal Core SpecSets.
 Require JV.Proofs.IterCore.
+Require JV.Proofs.Glue_C09_core.
 Open Scope Z_scope.
 
 (* For every calendar, year and month: either no date falls in the month and the shape is absent, or the
@@ -17,10 +18,7 @@ Print Assumptions C09_shape_describes_days.
 
 Theorem C09_none_iff_empty : forall c y m, ValidCal c -> in_i32 y ->
   (Calendar_month_shape (cal_of c) y m = Ret None <-> forall d, ~ InCal c y (Month_discr m) d).
-Proof.
-  intros c y m V Hy. pose proof (Month_discr_range m) as Mr. rewrite <- (month_empty_iff c y _ V Mr).
-  destruct (month_shape_described c y m V Hy) as [[Z0 E]|[P (s & E & _)]]; rewrite E; split; intros X; try assumption; try reflexivity; try discriminate; lia.
-Qed.
+Proof. exact JV.Proofs.Glue_C09_core.C09_none_iff_empty_lemma. Qed.
 Print Assumptions C09_none_iff_empty.
 
 (* meaning of the spec-level ingredients *)
